@@ -47,7 +47,7 @@ type Engine struct {
 	dry         int // >0: discard everything (loop modified-set discovery)
 	noOblig     int // >0: evaluate without emitting obligations (spec evaluation)
 	inlineTerms int // >0: do not name intermediate values (inside quantifier bodies)
-	boundVars   []string
+	boundVars   []T
 
 	Assumptions map[string]bool
 	Notes       []string
@@ -272,7 +272,9 @@ const smtPrelude = `(set-option :produce-models true)
 `
 
 func (e *Engine) emit(line string) {
-	if e.dry > 0 {
+	if e.dry > 0 || e.inlineTerms > 0 {
+		// inside a quantifier body nothing can be asserted globally (bound variables would
+		// escape); dropping a fact only weakens what is assumed
 		return
 	}
 	e.lines = append(e.lines, line)
@@ -300,7 +302,19 @@ func (e *Engine) freshName(hint string) string {
 // fresh declares a new unconstrained constant.
 func (e *Engine) fresh(sort, hint string) T {
 	if e.inlineTerms > 0 {
-		e.unsupported("fresh value (%s) inside a quantifier body", hint)
+		// inside a quantifier body an unknown value may depend on the bound variables:
+		// it becomes an application of a fresh function to them
+		if len(e.boundVars) == 0 {
+			e.unsupported("fresh value (%s) inside a term-only context", hint)
+		}
+		n := e.freshName(hint)
+		var sorts, args []string
+		for _, bv := range e.boundVars {
+			sorts = append(sorts, bv.Sort)
+			args = append(args, bv.S)
+		}
+		e.emitDecl(fmt.Sprintf("(declare-fun %s (%s) %s)", n, strings.Join(sorts, " "), sort))
+		return T{"(" + n + " " + strings.Join(args, " ") + ")", sort}
 	}
 	n := e.freshName(hint)
 	e.emitDecl(fmt.Sprintf("(declare-const %s %s)", n, sort))
@@ -616,17 +630,12 @@ func (e *Engine) subst(t types.Type) types.Type {
 	if t == nil {
 		return t
 	}
-	var m map[*types.TypeParam]types.Type
 	for f := e.cur; f != nil; f = f.caller {
 		if f.tsubst != nil {
-			m = f.tsubst
-			break
+			t = substType(t, f.tsubst)
 		}
 	}
-	if m == nil {
-		return t
-	}
-	return substType(t, m)
+	return t
 }
 
 func substType(t types.Type, m map[*types.TypeParam]types.Type) types.Type {
@@ -687,6 +696,7 @@ func (e *Engine) typeID(t types.Type) int {
 
 // makeIface boxes v (of static type t) into an interface value.
 func (e *Engine) makeIface(st *State, v Val, t types.Type) T {
+	t = e.subst(t)
 	if _, ok := t.Underlying().(*types.Interface); ok {
 		return v.(T)
 	}
@@ -732,6 +742,7 @@ func (e *Engine) makeIface(st *State, v Val, t types.Type) T {
 
 // unbox extracts the payload of interface value x as type t.
 func (e *Engine) unbox(st *State, x T, t types.Type) Val {
+	t = e.subst(t)
 	if _, ok := isStruct(t); ok {
 		return e.loadStruct(st, T{app("iref", x), sRef}, t)
 	}
@@ -757,6 +768,7 @@ func (e *Engine) unbox(st *State, x T, t types.Type) Val {
 
 // typeTest returns the condition "dynamic type of x is / implements t".
 func (e *Engine) typeTest(x T, t types.Type) T {
+	t = e.subst(t)
 	if it, ok := t.Underlying().(*types.Interface); ok {
 		if it.NumMethods() == 0 {
 			return tNot(tEq(x, tIfNil))
@@ -845,7 +857,7 @@ type MergeV struct {
 
 func (e *Engine) newObject(st *State, hint string) T {
 	if e.inlineTerms > 0 {
-		e.unsupported("allocation inside a quantifier body")
+		return e.fresh(sRef, "qnew_"+hint)
 	}
 	e.nfresh++
 	n := fmt.Sprintf("new_%s!%d", hint, e.nfresh)
